@@ -29,6 +29,8 @@ def cases(tier, seed):
                      "kernel:name_BT", "kernel:slate_BT", "cohesion-types", "Spatial", "OneDimSpatial", "ClusteredSpatial"):
             if name in ("AlternatingCrossover", "CambridgeSampler", "kernel:slate_BT") and len(ps["blocs"]) != 2:
                 continue
+            if name == "slate_BradleyTerry" and len(ps["blocs"]) > 2:
+                continue
             cs.append((name, pi))
     return cs
 
@@ -371,7 +373,7 @@ def cohesion_types(ps, bg, viol, out):
     ru = np.random.uniform
     try:
         # explore the choice tree: at each position pick a slate that still has candidates, with its renormalised share
-        def explore(prefix, remaining, prob, flips):
+        def explore(prefix, remaining, prob, flips, at=0.5):
             if len(prefix) == total:
                 yield tuple(prefix), prob, list(flips)
                 return
@@ -384,12 +386,13 @@ def cohesion_types(ps, bg, viol, out):
             for s in live:
                 w = shares[s] / Z
                 if w > 0:
-                    mid = lo + w / 2
+                    mid = lo + w * at
                     rem2 = dict(remaining)
                     rem2[s] -= 1
-                    yield from explore(prefix + [s], rem2, prob * w, flips + [mid])
+                    yield from explore(prefix + [s], rem2, prob * w, flips + [mid], at)
                 lo += w
-        for typ, prob, flips in explore([], dict(sizes), 1.0, []):
+        # draws in the middle of each slate's bin and close to both of its edges (the edges move when shares are renormalised wrongly)
+        for typ, prob, flips in [t for at in (0.5, 0.02, 0.98) for t in explore([], dict(sizes), 1.0, [], at)]:
             padded = flips + [0.5] * (total - len(flips))
             np.random.uniform = lambda size=None, low=0.0, high=1.0: np.array(padded[: size or 1])
             try:
@@ -409,7 +412,9 @@ def spatial(name, ps, viol, out):
     import numpy as np
     from . import oracle
     cands = [c for b in ps["blocs"] for c in ps["s2c"][b]]
-    gen = gens.build(name, ps)
+    taxi = name != "OneDimSpatial" and ps.get("order", 0) % 2 == 1  # a configured non-Euclidean distance must be the one used
+    gen = gens.build(name, ps, "taxicab" if taxi else None)
+    dist = gens.taxicab if taxi else (lambda a, b: float(np.linalg.norm(np.asarray(a, dtype=float) - np.asarray(b, dtype=float))))
     if name == "OneDimSpatial":
         # positions are not returned: script numpy.normal to known values
         rn = np.random.normal
@@ -433,7 +438,7 @@ def spatial(name, ps, viol, out):
     out["evals"] += 1
     exp = {}
     for v in vpos:
-        d = {c: float(np.linalg.norm(np.asarray(v, dtype=float) - np.asarray(p, dtype=float))) for c, p in cpos.items()}
+        d = {c: dist(v, p) for c, p in cpos.items()}
         if len(set(d.values())) < len(d):
             return
         order = tuple(frozenset([c]) for c in sorted(d, key=d.get))
@@ -441,7 +446,7 @@ def spatial(name, ps, viol, out):
     got = oracle.W_profile(prof)
     got = {tuple(frozenset(map(str, s)) for s in k): v for k, v in got.items()}
     if got != exp:
-        viol("ranking-not-by-distance", f"profile {got} != rankings by increasing distance {exp}")
+        viol("ranking-not-by-distance", f"profile {got} != rankings by increasing {'taxicab' if taxi else 'Euclidean'} distance {exp}")
 
 
 def run(tier="quick", seed=0):
